@@ -41,10 +41,16 @@ def concretize_control(ctx, run):
     return top, bot, decawm, irm
 
 
-def reference_step(L, pre, ch, cols, lines, cx, cy, top, bot, decawm, irm):
+def reference_step(L, pre, ch, cols, lines, cx, cy, top, bot, decawm, irm, cls=None):
     """Reference semantics of drawing one character.  Returns (grid, nx, ny) where grid maps (y,x) to a
-    list of alternatives (cond, cell) describing the expected observable cell."""
-    w, comb = classify(ch)
+    list of alternatives (cond, cell) describing the expected observable cell.  `ch` is a Python
+    character, or -- with cls=(width, combining) given -- a one-character Str that may be symbolic."""
+    if cls is None:
+        w, comb = classify(ch)
+        chs = Str.of(ch)
+    else:
+        w, comb = cls
+        chs = ch
     grid = {(y, x): cell_alts(L, pre, y, x) for y in range(lines) for x in range(cols)}
     if w == 0 and not comb:
         return grid, cx, cy
@@ -74,7 +80,7 @@ def reference_step(L, pre, ch, cols, lines, cx, cy, top, bot, decawm, irm):
         grid = ng
     if w >= 1:
         if x < cols:
-            grid[(y, x)] = [(True, attr.with_field(L.char['data'], Str.of(ch)))]
+            grid[(y, x)] = [(True, attr.with_field(L.char['data'], chs))]
         if w == 2 and x + 1 < cols:
             grid[(y, x + 1)] = [(True, attr.with_field(L.char['data'], Str(())))]
         x = min(x + w, cols)
@@ -90,6 +96,8 @@ def reference_step(L, pre, ch, cols, lines, cx, cy, top, bot, decawm, irm):
                 d = cell.f[L.char['data']]
                 if type(d) is not Str or not d.concrete():
                     raise Unmodelled('combining onto symbolic text')
+                if cls is not None:
+                    raise Unmodelled('combining symbolic character')
                 nd = Str.of(tables.nfc(d.py()) + ch)
                 new.append((c, cell.with_field(L.char['data'], nd)))
             grid[tgt] = new
@@ -109,8 +117,9 @@ def grid_matches(L, post, grid, cols, lines):
 def path_single(ctx, job, box):
     cols, lines = job.params['geom']
     ch = job.params['ch']
-    run = GridRun(ctx, box, cols, lines, cursor='pick', tabstops=0, titles='none', saved_columns='none',
-                  extra_mode=False)
+    opts = remote_opts(cols, lines) if job.params.get('remote') else {'cursor': 'pick'}
+    run = GridRun(ctx, box, cols, lines, tabstops=0, titles='none', saved_columns='none',
+                  extra_mode=False, **opts)
     L = run.L
     top, bot, decawm, irm = concretize_control(ctx, run)
     run.call('draw', Str.of(ch))
@@ -126,6 +135,40 @@ def path_single(ctx, job, box):
                       'draw(%s): grid after drawing differs from the documented placement' % name),
             run.check(cur_ok, 'draw(%s): cursor after drawing differs from the documented advance/wrap' % name),
             run.check(frame, 'draw(%s) changed state other than grid, cursor position and dirty rows' % name)]
+
+
+def path_symchar(ctx, job, box):
+    """One *symbolic* character of a given width class: every code point of the class must be placed like
+    its representative and stored unchanged (G0 = Latin-1 is active, so no code point is translated)."""
+    from .c03 import valid_scalar
+    cols, lines = job.params['geom']
+    want = job.params['w']
+    run = GridRun(ctx, box, cols, lines, cursor='pick', tabstops=0, titles='none', saved_columns='none',
+                  extra_mode=False, cell_attrs='none')
+    L = run.L
+    top, bot, decawm, irm = concretize_control(ctx, run)
+    c = ctx.bvvar('ch', 32)
+    ctx.assume(valid_scalar(c))
+    low = ctx.branch(z3.ULT(c, tables.SPLIT))
+    wcond = None
+    for cond, wv in tables.width_class_conds(c, low):
+        if (wv or 0) == want:
+            wcond = cond if wcond is None else z3.Or(wcond, cond)
+    ctx.assume(wcond)
+    if want == 0:
+        ctx.assume(z3.Not(tables.combining_cond(c, low)))
+    chs = Str((c,))
+    run.call('draw', chs)
+    if run.outcome == 'panic':
+        return run.panic_check()
+    grid, nx, ny = reference_step(L, run.pre, chs, cols, lines, run.ss.cx, run.ss.cy, top, bot, decawm, irm,
+                                  cls=(want, False))
+    px, py, _, _ = cursor_of(L, run.post)
+    cur_ok = bool_and(int_eq(px, nx), int_eq(py, ny))
+    return [run.check(grid_matches(L, run.post, grid, cols, lines),
+                      'draw(any width-%d character): grid differs from the documented placement / the character '
+                      'stored is not the one drawn' % want),
+            run.check(cur_ok, 'draw(any width-%d character): cursor differs from the documented advance/wrap' % want)]
 
 
 def path_pair(ctx, job, box):
@@ -165,6 +208,13 @@ def jobs(tier):
     for g in gs:
         for cls, ch in REPS.items():
             js.append(Job('single/%s/%dx%d' % (cls, g[0], g[1]), path_single, ch=ch, cls=cls, geom=g, prop=PROP))
+    for g in remote_geoms(tier):
+        for cls in ('narrow', 'wide', 'combining'):
+            js.append(Job('remote/%s/%dx%d' % (cls, g[0], g[1]), path_single, ch=REPS[cls], cls=cls, geom=g, remote=True,
+                          prop=PROP))
+    for g in ([(2, 1)] if tier == 'quick' else [(2, 1), (2, 2), (3, 1)]):
+        for w in (1, 2, 0):
+            js.append(Job('symchar/w%d/%dx%d' % (w, g[0], g[1]), path_symchar, w=w, geom=g, prop=PROP))
     pg = [(2, 1), (2, 2)] if tier == 'quick' else [(2, 1), (2, 2), (3, 2), (1, 2)]
     classes = ['narrow', 'wide', 'combining', 'zw', 'nul']
     for g in pg:
@@ -188,6 +238,8 @@ META = {
               'renditions, cursor at every position incl. pending-wrap, every region, DECAWM/IRM/LNM/DECSCNM symbolic; one '
               'character per class {narrow ASCII, Latin-1, double-width, combining, other zero-width, NUL, DEL, C1}; '
               'strings of 2 (thorough 3) characters over the classes compared with per-character drawing; G0=Latin-1 active',
-    'outside': 'other representatives of each width class (the class is decided by the real unicode-width / '
-               'unicode-normalization tables); strings longer than 3; charset translation (C20)',
+    'outside': 'for the multi-character and remote families other representatives of each width class (a single symbolic '
+               'character of width 1, 2 or 0 -- any code point of that class by the real unicode-width tables -- is '
+               'covered on 2x1, thorough + 2x2, 3x1); geometries other than the listed ones and the sparsely written remote '
+               'screens (quick 9x6; thorough + 258x2, 2x258, 17x9); strings longer than 3; charset translation (C20)',
 }
